@@ -52,3 +52,5 @@ let check (b : block) : verdict list =
                       (List.length mine) (List.length src)))
      | _ -> ());
     if !out = [] then [Ok] else List.rev !out
+
+let kinds = ["C01", check]
